@@ -10,14 +10,15 @@ package gorums
 // manager's node pool and with another construction.
 
 func VerifC15Config(readers int) {
+	c14HashAxioms()
 	mgr := NewRawManager(WithNoConnect())
 	// a first configuration exists already
-	_, err := NewRawConfiguration(mgr, WithNodeList([]string{c14Addrs[1], c14Addrs[0]}))
+	_, err := NewRawConfiguration(mgr, WithNodeList([]string{c14Addrs[2], c14Addrs[0]}))
 	vAssume(err == nil) // (colliding generated ids are rejected: C14)
 	done := 0
 	go func() {
 		// another goroutine builds a configuration (new node + known node)
-		_, _ = NewRawConfiguration(mgr, WithNodeList([]string{c14Addrs[2], c14Addrs[0]}))
+		_, _ = NewRawConfiguration(mgr, WithNodeList([]string{c14Addrs[3], c14Addrs[0]}))
 		done++
 	}()
 	for r := 0; r < readers; r++ {
